@@ -35,9 +35,9 @@ CASE_TIMEOUT = 240
 def plan(tier):
     q = tier == "quick"
     return [
-        {"lane": "main", "n": 240 if q else 8000, "timeout": 900 if q else 3300, "min_per_shard": 5},
-        {"lane": "hostile", "n": 96 if q else 4000, "timeout": 900 if q else 3300, "min_per_shard": 4},
-        {"lane": "asan", "n": 48 if q else 1500, "timeout": 900 if q else 3300, "min_per_shard": 4, "asan": True, "optional": True},
+        {"lane": "main", "n": 240 if q else 5000, "timeout": 900 if q else 3300, "min_per_shard": 5},
+        {"lane": "hostile", "n": 96 if q else 2500, "timeout": 900 if q else 3300, "min_per_shard": 4},
+        {"lane": "asan", "n": 48 if q else 800, "timeout": 900 if q else 3300, "min_per_shard": 4, "asan": True, "optional": True},
     ]
 
 
